@@ -1051,6 +1051,21 @@ Qed.
 
 (* ---------- begin_writable / the clean flag: what the accumulator holds afterwards ---------- *)
 
+Lemma rr_step_eq_v a b rfs' vq' :
+  p_win (a_st a) = [] -> hm_wfb (p_mem (a_st a)) = true ->
+  let m := set_rr (p_mem (a_st a)) b in
+  let a1 := a_issue a [hdr_write m] in
+  let r := a_mem (a_sync a1 (d_same (a_st a1) m vq' None)) m rfs' b in
+  a_ws r = a_ws a ++ [mkWrec (p_d (a_st a)) ([] ++ [hdr_write m]) true]
+  /\ a_st r = mkPst (mkDsum (enc_hdr m) (d_len (p_d (a_st a))) (d_p (p_d (a_st a))) (d_rp (p_d (a_st a)))
+                            vq' None) [] m rfs' b.
+Proof.
+  intros Ew W m a1 r.
+  assert (Wm : hm_wf m) by (apply hm_wfb_wf; exact W).
+  unfold r, a1, a_mem, a_sync, a_issue, d_same. cbn [a_st a_ws a_ops p_d p_win p_mem p_rfs p_open].
+  rewrite Ew. rewrite (cur_len_one_hdr _ _ _ _ _ Wm). split; reflexivity.
+Qed.
+
 Lemma rr_step_eq a b rfs' :
   p_win (a_st a) = [] -> hm_wfb (p_mem (a_st a)) = true ->
   let m := set_rr (p_mem (a_st a)) b in
@@ -1232,8 +1247,10 @@ Section Sem.
       apply andb_true_iff in Hs as [A _]. now apply Nat.eqb_eq in A.
   Qed.
 
-  (* the summary d' of the image a window produces is truthful, given what it claims about the slots *)
-  Lemma image_ok_next d W D d' :
+  (* the summary d' of the image a window produces is truthful, given what it claims about the slots.
+     Which slot recovery serves: a 2PC god byte names it; a 1PC god byte either tries it first, or tries the
+     other slot first and that one does not verify (or holds the same bytes) *)
+  Lemma image_ok_next_gen d W D d' :
     image_ok H expect ps d D -> fresh_ok H d (map abs W) true -> window_okb d (map abs W) true = true ->
     d_hdr d' = next_hdr d (map abs W) -> d_len d' = next_len d (map abs W) ->
     cks_ok H (dP d') = true -> ver expect (apply_ops W D) (dP d') = true ->
@@ -1242,7 +1259,9 @@ Section Sem.
     (forall rq, d_rq d' = Some rq ->
        ver expect (apply_ops W D) (dQ d') = true
        /\ forall e, In e (expect (dQ d')) -> range_covered rq (fst e) (wlen (snd e)) = true) ->
-    served_okb d' = true ->
+    (if flag (dgod d') TWO_PHASE_COMMIT then names_q d' (dgod d') = false
+     else first_is_q (names_q d' (dgod d')) (d_vq d') (slot_txid (dQ d')) (slot_txid (dP d')) = false
+          \/ ver expect (apply_ops W D) (dQ d') = false \/ dQ d' = dP d') ->
     image_ok H expect ps d' (apply_ops W D).
   Proof.
     intros IO FO OK Eh El HPc HPv HPcov Hvq Hrq Hsv.
@@ -1265,14 +1284,36 @@ Section Sem.
                    = select H (dgod d') (if d_p d' then dQ d' else dP d') (if d_p d' then dP d' else dQ d') (ver expect D')).
       { unfold dP, dQ. destruct (d_p d'); reflexivity. }
       rewrite E2, (select_char H _ _ _ _ _ HPc HPv). clear E2.
-      unfold served_okb in Hsv. fold (names_q d' (dgod d')). rewrite Hvq.
+      fold (names_q d' (dgod d')). rewrite Hvq.
       destruct (flag (dgod d') TWO_PHASE_COMMIT).
-      - apply negb_true_iff in Hsv. now rewrite Hsv.
-      - apply negb_true_iff in Hsv. now rewrite Hsv. }
+      - now rewrite Hsv.
+      - destruct Hsv as [A | [A | A]].
+        + now rewrite A.
+        + rewrite A. now destruct (first_is_q _ _ _ _).
+        + rewrite A. destruct (first_is_q _ _ _ _); [|reflexivity]. now destruct (ver expect D' (dP d')). }
     constructor; auto.
     - rewrite Eh. apply next_hdr_length; auto.
     - rewrite El. exact Sl.
     - rewrite Ex. rewrite R6 in Esel. exact Esel.
+  Qed.
+
+  Lemma image_ok_next d W D d' :
+    image_ok H expect ps d D -> fresh_ok H d (map abs W) true -> window_okb d (map abs W) true = true ->
+    d_hdr d' = next_hdr d (map abs W) -> d_len d' = next_len d (map abs W) ->
+    cks_ok H (dP d') = true -> ver expect (apply_ops W D) (dP d') = true ->
+    (forall e, In e (expect (dP d')) -> range_covered (d_rp d') (fst e) (wlen (snd e)) = true) ->
+    cks_ok H (dQ d') = d_vq d' ->
+    (forall rq, d_rq d' = Some rq ->
+       ver expect (apply_ops W D) (dQ d') = true
+       /\ forall e, In e (expect (dQ d')) -> range_covered rq (fst e) (wlen (snd e)) = true) ->
+    served_okb d' = true ->
+    image_ok H expect ps d' (apply_ops W D).
+  Proof.
+    intros IO FO OK Eh El HPc HPv HPcov Hvq Hrq Hsv.
+    apply (image_ok_next_gen d W D d' IO FO OK Eh El HPc HPv HPcov Hvq Hrq).
+    unfold served_okb in Hsv. destruct (flag (dgod d') TWO_PHASE_COMMIT).
+    - now apply negb_true_iff in Hsv.
+    - left. now apply negb_true_iff in Hsv.
   Qed.
 
   (* a slot that is already torn stays invalid under further partial overwriting (the premise fo_dead of
@@ -1956,12 +1997,111 @@ Qed.
 Lemma txid_neq_bytes a b : slot_txid a <> slot_txid b -> bytes_eqb a b = false.
 Proof. intros Hn. apply bytes_eqb_neq. intros ->. contradiction. Qed.
 
+(* ---------- truthfulness of the summaries along a recovery run: the generic pure header window ---------- *)
+
+Section RecSemBase.
+  Variable H : bytes -> bytes.
+  Variable expect : bytes -> list (N * bytes).
+  Variable ps : N.
+  Hypothesis H_tear : forall a b m,
+    cks_ok H a = true -> cks_ok H b = true -> mix2 a b m -> cks_ok H m = true -> m = a \/ m = b.
+  Hypothesis expect_above : forall s e, In e (expect s) -> DB_HEADER_SIZE <= fst e.
+
+  (* the slot recovery tried first and did not serve does not verify (the validator's VNo) *)
+  Lemma nv_of d D :
+    image_ok H expect ps d D -> flag (dgod d) TWO_PHASE_COMMIT = false ->
+    first_is_q (names_q d (dgod d)) (d_vq d) (slot_txid (dQ d)) (slot_txid (dP d)) = true ->
+    dQ d <> dP d -> ver expect D (dQ d) = false.
+  Proof.
+    intros [Hhl Hhdr Hlen HPc HPv HPcov Hvq Hrq Hrec] Et Hf Hne.
+    destruct (recover_Some_inv H expect ps D _ Hrec) as (R0 & R1 & R2 & R3 & R4 & R5 & R6).
+    assert (EDs : forall k, slot_at (iat D) k = slot_at (hget (d_hdr d)) k)
+      by (intros k; apply rd_ext; intros i Hi; apply Hhdr; eapply slot_in_hdr; eauto).
+    assert (EDgod : god (iat D) = dgod d) by (apply Hhdr; apply god_in_hdr).
+    assert (EselD : select H (dgod d) (if d_p d then dQ d else dP d) (if d_p d then dP d else dQ d) (ver expect D)
+                    = Some (dP d)).
+    { rewrite <- R6, EDgod, !EDs. unfold dP, dQ. destruct (d_p d); reflexivity. }
+    rewrite (select_char H _ _ _ _ _ HPc HPv), Et in EselD. fold (names_q d (dgod d)) in EselD.
+    rewrite Hvq, Hf in EselD. destruct (ver expect D (dQ d)); [|reflexivity].
+    exfalso. apply Hne. congruence.
+  Qed.
+
+  (* a pure header window that keeps slot P and either keeps slot Q or (2PC) replaces it by a copy of P *)
+  Lemma sem_pure_keep d D m' vq' :
+    image_ok H expect ps d D -> dead H d -> d_rq d = None ->
+    window_okb d (map abs ([] ++ [hdr_write m'])) true = true ->
+    hm_wfb m' = true -> hm_slot m' (d_p d) = dP d ->
+    (hm_slot m' (negb (d_p d)) = dQ d /\ vq' = d_vq d
+     \/ hm_slot m' (negb (d_p d)) = dP d /\ vq' = true /\ hm_2pc m' = true) ->
+    rleaf d (hm_2pc m') (hm_prim m') = true ->
+    let d' := mkDsum (enc_hdr m') (d_len d) (d_p d) (d_rp d) vq' None in
+    fresh_ok H d (map abs ([] ++ [hdr_write m'])) true
+    /\ image_ok H expect ps d' (apply_ops ([] ++ [hdr_write m']) D) /\ dead H d'.
+  Proof.
+    intros IO Hd Hrq OK Wm EP HQ Lf d'.
+    pose proof (hm_wfb_wf _ Wm) as Wf. assert (Wpre : win_okb d [] = true) by reflexivity.
+    assert (Ewq : wq d (map abs ([] ++ [hdr_write m'])) = hm_slot m' (negb (d_p d))) by apply (oh_wq d [] m' Wf Wpre).
+    assert (EP' : dP d' = dP d) by (unfold dP at 1, d'; cbn [d_hdr d_p]; rewrite (slot_enc _ _ Wf); exact EP).
+    assert (EQ' : dQ d' = hm_slot m' (negb (d_p d))) by (unfold dQ, d'; cbn [d_hdr d_p]; apply (slot_enc _ _ Wf)).
+    assert (FO : fresh_ok H d (map abs ([] ++ [hdr_write m'])) true).
+    { apply fresh_of; [exact Hd|]. rewrite Ewq. intros Hne. destruct HQ as [[E _] | (E & _)]; [contradiction|].
+      rewrite E. apply (io_pcks _ _ _ _ _ IO). }
+    destruct (window_okb_inv _ _ _ OK) as (_ & Hshape & _).
+    assert (Hpure : pure_hdr (map abs ([] ++ [hdr_write m'])) = true).
+    { unfold pure_hdr. now rewrite (oh_pages [] m' Wf), (oh_setlens [] m' Wf). }
+    split; [exact FO|]. split.
+    - apply (image_ok_next_gen H expect ps H_tear expect_above d _ D d' IO FO OK).
+      + unfold d'. cbn [d_hdr]. now rewrite (oh_next_hdr d [] m' Wf Wpre).
+      + unfold d'. cbn [d_len]. now rewrite (oh_next_len d [] m' Wf).
+      + rewrite EP'. apply (io_pcks _ _ _ _ _ IO).
+      + rewrite EP'. apply (ver_P_after H expect ps expect_above); auto.
+      + rewrite EP'. apply (io_pcov _ _ _ _ _ IO).
+      + rewrite EQ'. unfold d'. cbn [d_vq]. destruct HQ as [[E V] | (E & V & _)]; rewrite E, V.
+        * apply (io_vq _ _ _ _ _ IO).
+        * apply (io_pcks _ _ _ _ _ IO).
+      + intros rq E. discriminate.
+      + change (dgod d') with (hm_god m'). unfold hm_god at 1. rewrite flag_2pc.
+        unfold rleaf, rleafb in Lf.
+        assert (En : names_q d' (hm_god m') = xorb (hm_prim m') (d_p d)).
+        { unfold names_q, hm_god. now rewrite flag_prim. }
+        destruct (hm_2pc m') eqn:Et.
+        * rewrite En. now apply negb_true_iff in Lf.
+        * destruct HQ as [[E V] | (_ & _ & X)]; [|discriminate].
+          rewrite En, EP', EQ', E. unfold d'. cbn [d_vq]. rewrite V.
+          change (first_is_q (xorb (hm_prim m') (d_p d)) (d_vq d) (slot_txid (dQ d)) (slot_txid (dP d)))
+            with (fqb (d_vq d) (lqb d) (lpb d) (xorb (hm_prim m') (d_p d))).
+          destruct (fqb (d_vq d) (lqb d) (lpb d) (xorb (hm_prim m') (d_p d))) eqn:Ef; [|left; reflexivity].
+          right. cbn [negb orb] in Lf. apply orb_true_iff in Lf as [Sm | Tr].
+          -- right. unfold sameb in Sm. now apply bytes_eqb_eq in Sm.
+          -- left. rewrite !andb_true_iff, !negb_true_iff in Tr. destruct Tr as [[T0 F0] S0].
+             rewrite (ver_pure expect expect_above d _ D _ Hshape (io_len _ _ _ _ _ IO) (apply_is_crash _ D) _ Hpure).
+             apply (nv_of d D IO T0).
+             ++ exact F0.
+             ++ unfold sameb in S0. now apply bytes_eqb_neq in S0.
+    - unfold dead. rewrite EQ'. unfold d'. cbn [d_vq]. destruct HQ as [[E V] | (E & V & _)]; rewrite V.
+      + rewrite E. exact Hd.
+      + intros X. discriminate.
+  Qed.
+End RecSemBase.
+
 Lemma eqb_false_negb (a b : bool) : Bool.eqb a b = false -> a = negb b.
 Proof. destruct a, b; simpl; congruence. Qed.
 
 Section Rec.
   Variables (d : dsum) (o : roracle).
   Hypothesis Hok : rec_okb d o = true.
+  (* for the truthfulness of the summaries along the run *)
+  Variable H : bytes -> bytes.
+  Variable expect : bytes -> list (N * bytes).
+  Variable ps : N.
+  Hypothesis H_tear : forall a b m,
+    cks_ok H a = true -> cks_ok H b = true -> mix2 a b m -> cks_ok H m = true -> m = a \/ m = b.
+  Hypothesis expect_above : forall s e, In e (expect s) -> DB_HEADER_SIZE <= fst e.
+  (* the repair commit re-publishes the trees of the served commit (recounted table lengths only): valid
+     checksum, the same pages *)
+  Hypothesis Hq_cks : cks_ok H (ro_q o) = true.
+  Hypothesis Hq_ver : forall img, ver expect img (dP d) = true -> ver expect img (ro_q o) = true.
+  Hypothesis Hq_cov : forall e, In e (expect (ro_q o)) -> range_covered (d_rp d) (fst e) (wlen (snd e)) = true.
   Local Notation g := (hget (d_hdr d)).
   Local Notation m0 := (parse_hdr (d_hdr d)).
   Local Notation p := (d_p d).
@@ -2103,6 +2243,7 @@ Section Rec.
     af_lay : layout_at (hget (d_hdr dA)) = L;
     af_P : dP dA = dP d;
     af_Q : t0 = false -> dQ dA = hm_slot m1 (negb p);
+    af_Qd : dQ dA = hm_slot m1 (negb p) \/ dQ dA = dQ d;
     af_t : flag (dgod dA) TWO_PHASE_COMMIT = t0;
     af_r : flag (dgod dA) RECOVERY_REQUIRED = r0;
     af_prim : flag (dgod dA) PRIMARY_BIT = primA
@@ -2132,6 +2273,22 @@ Section Rec.
     - rewrite E, bytes_eqb_refl. now rewrite orb_true_r.
   Qed.
 
+  (* what a header write of recovery (before the repair commit) puts where dA's slot Q is: dA's own Q, or --
+     under a trusted 2PC primary -- the copy of P that erases a rolled back commit *)
+  Lemma af_keep_or_copy dA m1 primA m' :
+    AF dA m1 primA -> M1 m1 -> hm_slot m' (negb p) = hm_slot m1 (negb p) -> hm_2pc m' = t0 ->
+    hm_slot m' (negb (d_p dA)) = dQ dA /\ vq_after dA m' = d_vq dA
+    \/ hm_slot m' (negb (d_p dA)) = dP dA /\ vq_after dA m' = true /\ hm_2pc m' = true.
+  Proof.
+    intros A M Es Et. unfold vq_after. rewrite (af_p _ _ _ A), Es.
+    destruct (bytes_eqb (hm_slot m1 (negb p)) (dQ dA)) eqn:E.
+    - apply bytes_eqb_eq in E. left. auto.
+    - apply bytes_eqb_neq in E. right.
+      destruct (af_Qd _ _ _ A) as [X | X]; [symmetry in X; contradiction|].
+      destruct (m_Q _ M) as [[Y _] | (T & _ & Y)]; [rewrite X in E; contradiction|].
+      rewrite (af_P _ _ _ A), Et. auto.
+  Qed.
+
   (* ---- the quick path: begin_writable on the trusted primary ---- *)
   Lemma rec_quick_ok a1 dA m1 :
     a_st a1 = mkPst dA [] m1 false false -> forallb wrec_okb (a_ws a1) = true ->
@@ -2144,14 +2301,15 @@ Section Rec.
     assert (Ea : a_st a = mkPst dA [] (set_rr m1 false) false false) by (unfold a, a_mem; rewrite Es; reflexivity).
     assert (Ew : p_win (a_st a) = []) by (rewrite Ea; reflexivity).
     assert (Wa : hm_wfb (p_mem (a_st a)) = true) by (rewrite Ea; exact (m_wf _ M)).
-    destruct (rr_step_eq a true (p_rfs (a_st a)) Ew Wa) as [W3 S3].
+    destruct (rr_step_eq_v a true false (vq_after (p_d (a_st a)) (set_rr (p_mem (a_st a)) true)) Ew Wa) as [W3 S3].
     change (rec_quick a1 m1)
       with (let m := set_rr (p_mem (a_st a)) true in
             let a1' := a_issue a [hdr_write m] in
-            a_mem (a_sync a1' (d_same (a_st a1') m (d_vq (p_d (a_st a1'))) None)) m (p_rfs (a_st a)) true).
+            a_mem (a_sync a1' (d_same (a_st a1') m (vq_after (p_d (a_st a)) m) None)) m false true).
     cbv zeta in W3, S3 |- *. rewrite W3, S3. clear W3 S3. rewrite Ea. cbn [p_d p_mem p_rfs].
     change (a_ws a) with (a_ws a1).
     set (mF := set_rr (set_rr m1 false) true).
+    set (vqF := vq_after dA mF).
     assert (WF : hm_wfb mF = true) by exact (m_wf _ M).
     pose proof (hm_wfb_wf _ WF) as WfF.
     assert (EsP : hm_slot mF p = dP d) by exact (m_P _ M).
@@ -2168,9 +2326,9 @@ Section Rec.
         rewrite (m_t _ M), Et, Ep. apply B_2pc. }
     split; [|split; [reflexivity|]].
     - rewrite forallb_app, Hw. cbn [forallb]. rewrite wrec_okb_mk, OK. reflexivity.
-    - assert (EPF : dP (mkDsum (enc_hdr mF) (d_len dA) (d_p dA) (d_rp dA) (d_vq dA) None) = dP d).
+    - assert (EPF : dP (mkDsum (enc_hdr mF) (d_len dA) (d_p dA) (d_rp dA) vqF None) = dP d).
       { unfold dP. cbn [d_hdr d_p]. rewrite (slot_enc _ _ WfF), (af_p _ _ _ A). exact EsP. }
-      assert (EQF : dQ (mkDsum (enc_hdr mF) (d_len dA) (d_p dA) (d_rp dA) (d_vq dA) None) = hm_slot m1 (negb p)).
+      assert (EQF : dQ (mkDsum (enc_hdr mF) (d_len dA) (d_p dA) (d_rp dA) vqF None) = hm_slot m1 (negb p)).
       { unfold dQ. cbn [d_hdr d_p]. rewrite (slot_enc _ _ WfF), (af_p _ _ _ A). reflexivity. }
       constructor; cbn [p_d p_win p_mem p_rfs p_open].
       + apply (enc_length _ WfF).
@@ -2221,12 +2379,15 @@ Section Rec.
     assert (Ea : a_st a1' = mkPst dA [] m2 false false) by (unfold a1', a_mem; rewrite Es; reflexivity).
     assert (Ew : p_win (a_st a1') = []) by (rewrite Ea; reflexivity).
     assert (Wa : hm_wfb (p_mem (a_st a1')) = true) by (rewrite Ea; exact W2).
-    destruct (rr_step_eq a1' false false Ew Wa) as [Wn2 Sn2]. cbv zeta in Wn2, Sn2.
-    rewrite Ea in Wn2, Sn2. cbn [p_d p_mem] in Wn2, Sn2. change (a_ws a1') with (a_ws a1) in Wn2. fold m3 in Wn2, Sn2.
-    set (d3 := mkDsum (enc_hdr m3) (d_len dA) (d_p dA) (d_rp dA) (d_vq dA) None) in *.
+    destruct (rr_step_eq_v a1' false false (vq_after (p_d (a_st a1')) (set_rr (p_mem (a_st a1')) false)) Ew Wa) as [Wn2 Sn2].
+    cbv zeta in Wn2, Sn2.
+    change (set_rr (p_mem (a_st a1')) false) with m3 in Wn2, Sn2.
     set (a3 := a_mem (a_sync (a_issue a1' [hdr_write m3])
-                        (d_same (a_st (a_issue a1' [hdr_write m3])) m3 (d_vq (p_d (a_st (a_issue a1' [hdr_write m3])))) None))
+                        (d_same (a_st (a_issue a1' [hdr_write m3])) m3 (vq_after (p_d (a_st a1')) m3) None))
                      m3 false false) in *.
+    rewrite Ea in Wn2, Sn2. cbn [p_d p_mem] in Wn2, Sn2. change (a_ws a1') with (a_ws a1) in Wn2.
+    set (vq3 := vq_after dA m3) in *.
+    set (d3 := mkDsum (enc_hdr m3) (d_len dA) (d_p dA) (d_rp dA) vq3 None) in *.
     assert (OK2 : window_okb dA (map abs ([] ++ [hdr_write m3])) true = true).
     { apply rec_window; try apply A; auto.
       - rewrite (af_geom _ _ _ A). symmetry. exact G2.
@@ -2236,7 +2397,7 @@ Section Rec.
       - change (hm_2pc m3) with (hm_2pc m2). change (hm_prim m3) with (hm_prim m2). rewrite T2, Ep. exact L2b. }
     (* the summary after it *)
     assert (B3 : basic d3).
-    { apply (sumS_basic dA m3 (d_p dA) (d_rp dA) (d_vq dA) (af_basic _ _ _ A) W3).
+    { apply (sumS_basic dA m3 (d_p dA) (d_rp dA) vq3 (af_basic _ _ _ A) W3).
       - rewrite (af_geom _ _ _ A). symmetry. exact G2.
       - exact (b_rp _ (af_basic _ _ _ A)). }
     assert (P3 : dP d3 = dP d).
@@ -2282,6 +2443,10 @@ Section Rec.
       rewrite T2, Ep. unfold d3. cbn [d_p d_vq]. rewrite (af_p _ _ _ A).
       pose proof (af_Q _ _ _ A) as AQ.
       destruct t0 eqn:Et; [apply B_2pc|].
+      assert (Ev3 : vq3 = d_vq dA).
+      { unfold vq3, vq_after. rewrite (af_p _ _ _ A). change (hm_slot m3 (negb p)) with (hm_slot m2 (negb p)).
+        rewrite Sl2, <- (AQ eq_refl), bytes_eqb_refl. reflexivity. }
+      rewrite Ev3.
       specialize (L3 eq_refl). unfold lqb, lpb, sameb in L3. rewrite (af_P _ _ _ A), (AQ eq_refl) in L3. exact L3. }
     assert (OK3 : window_okb d3 (map abs ([] ++ [hdr_write c1])) true = true).
     { apply rec_window; auto.
@@ -2438,6 +2603,7 @@ Section Rec.
         * rewrite (layout_enc _ Wf1). exact (m_lay _ M).
         * unfold dP. cbn [d_hdr d_p]. rewrite (slot_enc _ _ Wf1). exact (m_P _ M).
         * intros _. unfold dQ. cbn [d_hdr d_p]. apply (slot_enc _ _ Wf1).
+        * left. unfold dQ. cbn [d_hdr d_p]. apply (slot_enc _ _ Wf1).
         * unfold dgod. cbn [d_hdr]. rewrite god_enc. unfold hm_god. rewrite flag_2pc. exact (m_t _ M).
         * unfold dgod. cbn [d_hdr]. rewrite god_enc. unfold hm_god. rewrite flag_rr, (m_rr _ M). reflexivity.
         * unfold dgod. cbn [d_hdr]. rewrite god_enc. unfold hm_god. now rewrite flag_prim.
@@ -2528,6 +2694,394 @@ Section Rec.
         { cbn [swap_prim hm_prim]. rewrite (eqb_false_negb _ _ Ep1). apply negb_involutive. }
         destruct (Lfull (swap_prim m1) (or_intror eq_refl) Ep2) as (W & O & J). split; [exact W | split; [exact J | exact O]].
   Qed.
+  (* ================= truthfulness of the summaries along the run ================= *)
+
+  Lemma forallb_app_last {A} (f : A -> bool) l x : forallb f (l ++ [x]) = true -> f x = true.
+  Proof. rewrite forallb_app. cbn [forallb]. rewrite andb_true_r. intros E. now apply andb_true_iff in E. Qed.
+
+  Lemma rec_quick_shape a1 dA m1 :
+    a_st a1 = mkPst dA [] m1 false false -> hm_wfb m1 = true ->
+    let mF := set_rr (set_rr m1 false) true in
+    a_ws (rec_quick a1 m1) = a_ws a1 ++ [mkWrec dA ([] ++ [hdr_write mF]) true]
+    /\ a_st (rec_quick a1 m1)
+       = mkPst (mkDsum (enc_hdr mF) (d_len dA) (d_p dA) (d_rp dA) (vq_after dA mF) None) [] mF false true.
+  Proof.
+    intros Es W1 mF.
+    set (a := a_mem a1 (set_rr m1 false) false false).
+    assert (Ea : a_st a = mkPst dA [] (set_rr m1 false) false false) by (unfold a, a_mem; rewrite Es; reflexivity).
+    assert (Ew : p_win (a_st a) = []) by (rewrite Ea; reflexivity).
+    assert (Wa : hm_wfb (p_mem (a_st a)) = true) by (rewrite Ea; exact W1).
+    destruct (rr_step_eq_v a true false (vq_after (p_d (a_st a)) (set_rr (p_mem (a_st a)) true)) Ew Wa) as [W3 S3].
+    change (rec_quick a1 m1)
+      with (let m := set_rr (p_mem (a_st a)) true in
+            let a1' := a_issue a [hdr_write m] in
+            a_mem (a_sync a1' (d_same (a_st a1') m (vq_after (p_d (a_st a)) m) None)) m false true).
+    cbv zeta in W3, S3 |- *. rewrite W3, S3. rewrite Ea. cbn [p_d p_mem p_rfs]. split; reflexivity.
+  Qed.
+
+  Lemma rec_quick_sem a1 dA m1 :
+    a_st a1 = mkPst dA [] m1 false false -> forallb wrec_okb (a_ws a1) = true ->
+    AF dA m1 p -> M1 m1 -> t0 = true -> hm_prim m1 = p ->
+    forall DA, image_ok H expect ps dA DA -> dead H dA ->
+    exists ws, a_ws (rec_quick a1 m1) = a_ws a1 ++ ws /\ chain H expect ps DA ws
+               /\ Sem H expect ps (a_st (rec_quick a1 m1)) (image_after DA ws).
+  Proof.
+    intros Es Hw A M Et Ep DA IOA DdA.
+    destruct (rec_quick_ok a1 dA m1 Es Hw A M Et Ep) as (W & _ & _).
+    destruct (rec_quick_shape a1 dA m1 Es (m_wf _ M)) as [EW ES]. cbv zeta in EW, ES.
+    set (mF := set_rr (set_rr m1 false) true) in *.
+    rewrite EW in W. apply forallb_app_last in W. rewrite wrec_okb_mk in W.
+    exists [mkWrec dA ([] ++ [hdr_write mF]) true]. split; [exact EW|]. rewrite ES.
+    assert (WF : hm_wfb mF = true) by exact (m_wf _ M).
+    assert (HQ := af_keep_or_copy dA m1 p mF A M eq_refl (m_t _ M)).
+    assert (EPA : hm_slot mF (d_p dA) = dP dA) by (rewrite (af_p _ _ _ A), (af_P _ _ _ A); exact (m_P _ M)).
+    assert (Lf : rleaf dA (hm_2pc mF) (hm_prim mF) = true).
+    { unfold rleaf. rewrite (af_p _ _ _ A). change (hm_2pc mF) with (hm_2pc m1). change (hm_prim mF) with (hm_prim m1).
+      rewrite (m_t _ M), Et, Ep. apply B_2pc. }
+    destruct (sem_pure_keep H expect ps H_tear expect_above dA DA mF (vq_after dA mF) IOA DdA (af_rq _ _ _ A) W WF EPA HQ Lf)
+      as (FO & IO' & Dd').
+    cbn [image_after w_ops]. split.
+    - constructor; cbn [w_sum w_ops w_vnew]; [exact IOA | exact FO | constructor].
+    - constructor; cbn [p_d]; [exact IO' | exact Dd'].
+  Qed.
+
+  Lemma rec_full_shape a1 dA m1 m2 :
+    a_st a1 = mkPst dA [] m1 false false -> hm_wfb m2 = true -> d_len dA = d_len d ->
+    let q := ro_q o in
+    let m3 := set_rr m2 false in
+    let d3 := mkDsum (enc_hdr m3) (d_len dA) (d_p dA) (d_rp dA) (vq_after dA m3) None in
+    let stC := mkPst d3 [] m3 false false in
+    let c1 := cm1 stC q None in
+    let c2 := cm2 stC true q None in
+    let d4 := cd1 stC q (d_rp d) None in
+    let d5 := mkDsum (enc_hdr c2) (d_len d) (negb (hm_prim m3)) (d_rp d) true None in
+    let mF := set_rr c2 true in
+    a_ws (rec_full a1 m2 q (d_rp d))
+    = a_ws a1 ++ [mkWrec dA ([] ++ [hdr_write m3]) true; mkWrec d3 ([] ++ [hdr_write c1]) true;
+                  mkWrec d4 ([] ++ [hdr_write c2]) true; mkWrec d5 ([] ++ [hdr_write mF]) true]
+    /\ a_st (rec_full a1 m2 q (d_rp d))
+       = mkPst (mkDsum (enc_hdr mF) (d_len d) (negb (hm_prim m3)) (d_rp d) true None) [] mF false true.
+  Proof.
+    intros Es W2 Elen q m3 d3 stC c1 c2 d4 d5 mF.
+    destruct k_facts as (_ & _ & _ & _ & _ & _ & _ & Hq & _).
+    assert (W3 : hm_wfb m3 = true) by exact W2.
+    set (a1' := a_mem a1 m2 false false).
+    assert (Ea : a_st a1' = mkPst dA [] m2 false false) by (unfold a1', a_mem; rewrite Es; reflexivity).
+    assert (Ew : p_win (a_st a1') = []) by (rewrite Ea; reflexivity).
+    assert (Wa : hm_wfb (p_mem (a_st a1')) = true) by (rewrite Ea; exact W2).
+    destruct (rr_step_eq_v a1' false false (vq_after (p_d (a_st a1')) (set_rr (p_mem (a_st a1')) false)) Ew Wa) as [Wn2 Sn2].
+    cbv zeta in Wn2, Sn2.
+    change (set_rr (p_mem (a_st a1')) false) with m3 in Wn2, Sn2.
+    set (a3 := a_mem (a_sync (a_issue a1' [hdr_write m3])
+                        (d_same (a_st (a_issue a1' [hdr_write m3])) m3 (vq_after (p_d (a_st a1')) m3) None))
+                     m3 false false) in *.
+    rewrite Ea in Wn2, Sn2. cbn [p_d p_mem] in Wn2, Sn2. change (a_ws a1') with (a_ws a1) in Wn2.
+    fold d3 in Sn2. fold stC in Sn2.
+    assert (Wc1 : hm_wfb c1 = true) by (unfold c1, cm1; apply wfb_set_slot; [exact W3 | exact Hq]).
+    destruct (run_commit_eq_acc a3 true q (d_rp d) [] None) as [Ec Ewc].
+    { rewrite Sn2. exact Wc1. } { reflexivity. }
+    rewrite Sn2 in Ec, Ewc.
+    assert (Ecur : cur_len stC = d_len d) by (unfold cur_len, stC; cbn [p_d p_win]; exact Elen).
+    assert (Ecp : commit_post stC true q (d_rp d) None = mkPst d5 [] c2 false false).
+    { unfold commit_post, d5. fold (cm0 stC None). fold (cm1 stC q None). fold (cm2 stC true q None). fold c2.
+      rewrite Ecur. reflexivity. }
+    set (b4 := run_commit a3 true q (d_rp d) [] None) in *.
+    rewrite Ecp in Ec.
+    assert (Ew4 : p_win (a_st b4) = []) by (rewrite Ec; reflexivity).
+    assert (Wa4 : hm_wfb (p_mem (a_st b4)) = true) by (rewrite Ec; exact Wc1).
+    destruct (rr_step_eq b4 true (p_rfs (a_st b4)) Ew4 Wa4) as [Wn5 Sn5]. cbv zeta in Wn5, Sn5.
+    change (rec_full a1 m2 q (d_rp d))
+      with (let m := set_rr (p_mem (a_st b4)) true in
+            let a1'' := a_issue b4 [hdr_write m] in
+            a_mem (a_sync a1'' (d_same (a_st a1'') m (d_vq (p_d (a_st a1''))) None)) m (p_rfs (a_st b4)) true).
+    cbv zeta. rewrite Wn5, Sn5. rewrite Ec. cbn [p_d p_mem p_rfs d5 d_len d_p d_rp d_vq]. rewrite Ewc, Wn2.
+    unfold commit_windows. change (p_d stC) with d3.
+    change (p_win stC ++ page_writes [] ++ [hdr_write (cm1 stC q None)]) with ([] ++ [hdr_write c1]).
+    fold d4. fold c2. rewrite <- !app_assoc. split; reflexivity.
+  Qed.
+
+  Lemma rec_full_sem a1 dA m1 primA m2 :
+    a_st a1 = mkPst dA [] m1 false false -> forallb wrec_okb (a_ws a1) = true ->
+    AF dA m1 primA -> M1 m1 -> (m2 = m1 \/ m2 = swap_prim m1) -> hm_prim m2 = p ->
+    rleaf dA t0 primA = true -> rleaf dA t0 p = true ->
+    (t0 = false -> rleafb false p p (d_vq dA) (lqb dA) (lpb dA) (sameb dA) false p = true) ->
+    forall DA, image_ok H expect ps dA DA -> dead H dA ->
+    exists ws, a_ws (rec_full a1 m2 (ro_q o) (d_rp d)) = a_ws a1 ++ ws /\ chain H expect ps DA ws
+               /\ Sem H expect ps (a_st (rec_full a1 m2 (ro_q o) (d_rp d))) (image_after DA ws).
+  Proof.
+    intros Es Hw A M Hm2 Ep L2a L2b L3 DA IOA DdA.
+    destruct (rec_full_ok a1 dA m1 primA m2 Es Hw A M Hm2 Ep L2a L2b L3) as (W & _ & _). cbv zeta in W.
+    destruct k_facts as (_ & _ & _ & _ & _ & F6 & _ & Hq & Htx & _).
+    assert (Sl2 : forall k, hm_slot m2 k = hm_slot m1 k) by (intros k; destruct Hm2 as [-> | ->]; reflexivity).
+    assert (W2 : hm_wfb m2 = true) by (destruct Hm2 as [-> | ->]; exact (m_wf _ M)).
+    assert (T2 : hm_2pc m2 = t0) by (destruct Hm2 as [-> | ->]; exact (m_t _ M)).
+    destruct (rec_full_shape a1 dA m1 m2 Es W2 (af_len _ _ _ A)) as [EW ES]. cbv zeta in EW, ES.
+    set (q := ro_q o) in *.
+    set (m3 := set_rr m2 false) in *.
+    set (d3 := mkDsum (enc_hdr m3) (d_len dA) (d_p dA) (d_rp dA) (vq_after dA m3) None) in *.
+    set (stC := mkPst d3 [] m3 false false) in *.
+    set (c1 := cm1 stC q None) in *.
+    set (c2 := cm2 stC true q None) in *.
+    set (d4 := cd1 stC q (d_rp d) None) in *.
+    set (d5 := mkDsum (enc_hdr c2) (d_len d) (negb (hm_prim m3)) (d_rp d) true None) in *.
+    set (mF := set_rr c2 true) in *.
+    rewrite EW in W. rewrite forallb_app in W. apply andb_true_iff in W as [_ W].
+    cbn [forallb] in W. rewrite !wrec_okb_mk, !andb_true_iff in W. destruct W as (OK2 & OK3 & OK4 & OK5 & _).
+    assert (W3 : hm_wfb m3 = true) by exact W2.
+    assert (Pm3 : hm_prim m3 = p) by exact Ep.
+    assert (Wc1 : hm_wfb c1 = true) by (unfold c1, cm1; apply wfb_set_slot; [exact W3 | exact Hq]).
+    pose proof (hm_wfb_wf _ Wc1) as Wfc1.
+    assert (Wc2 : hm_wfb c2 = true) by exact Wc1.
+    pose proof (hm_wfb_wf _ Wc2) as Wfc2.
+    assert (Ec0 : cm0 stC None = m3) by reflexivity.
+    assert (Sc1p : hm_slot c1 p = dP d).
+    { unfold c1, cm1. rewrite Ec0, Pm3. rewrite <- (negb_involutive p) at 2. rewrite slot_set_other, negb_involutive.
+      change (hm_slot m3 p) with (hm_slot m2 p). rewrite Sl2. exact (m_P _ M). }
+    assert (Sc1q : hm_slot c1 (negb p) = q) by (unfold c1, cm1; rewrite Ec0, Pm3; apply slot_set_same).
+    assert (Tc1 : hm_2pc c1 = t0) by (unfold c1, cm1; rewrite Ec0; destruct (negb (hm_prim m3)); exact T2).
+    assert (Pc1 : hm_prim c1 = p) by (unfold c1, cm1; rewrite prim_set_slot; exact Pm3).
+    (* window 2 *)
+    assert (HQ2 := af_keep_or_copy dA m1 primA m3 A M (Sl2 (negb p)) T2).
+    assert (EPA : hm_slot m3 (d_p dA) = dP dA).
+    { rewrite (af_p _ _ _ A), (af_P _ _ _ A). change (hm_slot m3 p) with (hm_slot m2 p). rewrite Sl2. exact (m_P _ M). }
+    assert (Lf2 : rleaf dA (hm_2pc m3) (hm_prim m3) = true).
+    { change (hm_2pc m3) with (hm_2pc m2). rewrite T2, Pm3. exact L2b. }
+    destruct (sem_pure_keep H expect ps H_tear expect_above dA DA m3 (vq_after dA m3) IOA DdA (af_rq _ _ _ A) OK2 W3 EPA HQ2 Lf2)
+      as (FO2 & IO3 & Dd3). fold d3 in IO3, Dd3.
+    set (D3 := apply_ops ([] ++ [hdr_write m3]) DA) in *.
+    assert (P3 : dP d3 = dP d).
+    { unfold dP, d3. cbn [d_hdr d_p]. rewrite (slot_enc _ _ (hm_wfb_wf _ W3)), (af_p _ _ _ A).
+      change (hm_slot m3 p) with (hm_slot m2 p). rewrite Sl2. exact (m_P _ M). }
+    assert (Wpre3 : win_okb d3 [] = true) by reflexivity.
+    (* window 3: the first flush of the repair commit *)
+    assert (Ewq3 : wq d3 (map abs ([] ++ [hdr_write c1])) = q).
+    { rewrite (oh_wq d3 [] c1 Wfc1 Wpre3). unfold d3. cbn [d_p]. rewrite (af_p _ _ _ A). exact Sc1q. }
+    assert (FO3 : fresh_ok H d3 (map abs ([] ++ [hdr_write c1])) true).
+    { apply fresh_of; [exact Dd3|]. intros _. rewrite Ewq3. exact Hq_cks. }
+    set (D4 := apply_ops ([] ++ [hdr_write c1]) D3) in *.
+    assert (VP4 : ver expect D4 (dP d) = true).
+    { rewrite <- P3. apply (ver_P_after H expect ps expect_above); auto. }
+    assert (Vq4 : ver expect D4 q = true) by (apply Hq_ver; exact VP4).
+    assert (Ecur : cur_len stC = d_len d) by (unfold cur_len, stC; cbn [p_d p_win]; exact (af_len _ _ _ A)).
+    assert (Hltq : slot_txid (dP d) <? slot_txid q = true) by (apply N.ltb_lt; exact Htx).
+    assert (E4hdr : d_hdr d4 = enc_hdr c1) by (unfold d4, cd1; fold c1; destruct (hm_2pc (p_mem stC)); reflexivity).
+    assert (E4len : d_len d4 = d_len d) by (unfold d4, cd1; rewrite Ecur; destruct (hm_2pc (p_mem stC)); reflexivity).
+    assert (E4vq : d_vq d4 = true) by (unfold d4, cd1; destruct (hm_2pc (p_mem stC)); reflexivity).
+    assert (E4slot : forall k, slot_at (hget (d_hdr d4)) k = hm_slot c1 k) by (intros k; rewrite E4hdr; apply (slot_enc _ _ Wfc1)).
+    assert (IO4 : image_ok H expect ps d4 D4).
+    { apply (image_ok_next_gen H expect ps H_tear expect_above d3 _ D3 d4 IO3 FO3 OK3).
+      - rewrite E4hdr, (oh_next_hdr d3 [] c1 Wfc1 Wpre3). reflexivity.
+      - rewrite E4len, (oh_next_len d3 [] c1 Wfc1). unfold next_len. cbn [map setlens flat_map last d3 d_len].
+        symmetry. exact (af_len _ _ _ A).
+      - unfold dP. rewrite E4slot. unfold d4, cd1. change (hm_2pc (p_mem stC)) with (hm_2pc m2). rewrite T2.
+        destruct t0; cbn [d_p]; [change (d_p (p_d stC)) with (d_p dA); rewrite (af_p _ _ _ A), Sc1p, <- P3; apply (io_pcks _ _ _ _ _ IO3)
+                                | rewrite Ec0, Pm3, Sc1q; exact Hq_cks].
+      - unfold dP. rewrite E4slot. unfold d4, cd1. change (hm_2pc (p_mem stC)) with (hm_2pc m2). rewrite T2.
+        destruct t0; cbn [d_p]; [change (d_p (p_d stC)) with (d_p dA); rewrite (af_p _ _ _ A), Sc1p; exact VP4
+                                | rewrite Ec0, Pm3, Sc1q; exact Vq4].
+      - unfold dP. rewrite E4slot. unfold d4, cd1. change (hm_2pc (p_mem stC)) with (hm_2pc m2). rewrite T2.
+        destruct t0; cbn [d_p d_rp].
+        + change (d_p (p_d stC)) with (d_p dA). change (d_rp (p_d stC)) with (d_rp d3). rewrite (af_p _ _ _ A), Sc1p, <- P3.
+          apply (io_pcov _ _ _ _ _ IO3).
+        + rewrite Ec0, Pm3, Sc1q. exact Hq_cov.
+      - rewrite E4vq. unfold dQ. rewrite E4slot. unfold d4, cd1. change (hm_2pc (p_mem stC)) with (hm_2pc m2). rewrite T2.
+        destruct t0; cbn [d_p].
+        + change (d_p (p_d stC)) with (d_p dA). rewrite (af_p _ _ _ A), Sc1q. exact Hq_cks.
+        + rewrite Ec0, Pm3, negb_involutive, Sc1p, <- P3. apply (io_pcks _ _ _ _ _ IO3).
+      - intros rq. unfold dQ. rewrite E4slot. unfold d4, cd1. change (hm_2pc (p_mem stC)) with (hm_2pc m2). rewrite T2.
+        destruct t0; cbn [d_p d_rq]; [|discriminate].
+        intros E. injection E as <-. change (d_p (p_d stC)) with (d_p dA). rewrite (af_p _ _ _ A), Sc1q.
+        split; [exact Vq4 | exact Hq_cov].
+      - change (dgod d4) with (god (hget (d_hdr d4))). rewrite E4hdr, god_enc. unfold hm_god at 1. rewrite flag_2pc, Tc1.
+        unfold names_q, hm_god. rewrite flag_prim, Pc1. unfold dQ, dP. rewrite !E4slot, E4vq.
+        unfold d4, cd1. change (hm_2pc (p_mem stC)) with (hm_2pc m2). rewrite T2.
+        destruct t0; cbn [d_p].
+        + change (d_p (p_d stC)) with (d_p dA). rewrite (af_p _ _ _ A). apply xorb_nilpotent.
+        + rewrite Ec0, Pm3. replace (xorb p (negb p)) with true by (destruct p; reflexivity).
+          rewrite negb_involutive, Sc1p, Sc1q. left. unfold first_is_q. rewrite Hltq. reflexivity. }
+    assert (Dd4 : dead H d4) by (intros X; rewrite E4vq in X; discriminate).
+    (* window 4: the second flush *)
+    assert (Wpre4 : win_okb d4 [] = true) by reflexivity.
+    assert (Ewq4 : wq d4 (map abs ([] ++ [hdr_write c2])) = dQ d4).
+    { rewrite (oh_wq d4 [] c2 Wfc2 Wpre4). change (hm_slot c2 (negb (d_p d4))) with (hm_slot c1 (negb (d_p d4))).
+      unfold dQ. now rewrite E4slot. }
+    assert (FO4 : fresh_ok H d4 (map abs ([] ++ [hdr_write c2])) true).
+    { apply fresh_of; [exact Dd4 | intros Hne; contradiction]. }
+    set (D5 := apply_ops ([] ++ [hdr_write c2]) D4) in *.
+    destruct (window_okb_inv _ _ _ OK4) as (_ & Hshape4 & _).
+    assert (Vq5 : ver expect D5 q = true).
+    { apply (ver_protected expect expect_above d4 ([] ++ [hdr_write c2]) D4 D5 Hshape4 (io_len _ _ _ _ _ IO4)
+               (apply_is_crash _ D4) (d_rp d)); auto.
+      unfold untouched. rewrite (oh_pages [] c2 Wfc2). cbn [map pages flat_map forallb andb].
+      unfold lens_of. rewrite (oh_setlens [] c2 Wfc2). cbn [map setlens flat_map forallb andb].
+      rewrite E4len. fold (within (d_rp d) (d_len d)). now rewrite F6. }
+    assert (E5P : dP d5 = q).
+    { unfold dP, d5. cbn [d_hdr d_p]. rewrite (slot_enc _ _ Wfc2), Pm3. change (hm_slot c2 (negb p)) with (hm_slot c1 (negb p)).
+      exact Sc1q. }
+    assert (E5Q : dQ d5 = dP d).
+    { unfold dQ, d5. cbn [d_hdr d_p]. rewrite (slot_enc _ _ Wfc2), Pm3, negb_involutive.
+      change (hm_slot c2 p) with (hm_slot c1 p). exact Sc1p. }
+    assert (IO5 : image_ok H expect ps d5 D5).
+    { apply (image_ok_next_gen H expect ps H_tear expect_above d4 _ D4 d5 IO4 FO4 OK4).
+      - unfold d5. cbn [d_hdr]. now rewrite (oh_next_hdr d4 [] c2 Wfc2 Wpre4).
+      - unfold d5. cbn [d_len]. rewrite (oh_next_len d4 [] c2 Wfc2). unfold next_len. cbn [map setlens flat_map last].
+        symmetry. exact E4len.
+      - rewrite E5P. exact Hq_cks.
+      - rewrite E5P. exact Vq5.
+      - rewrite E5P. exact Hq_cov.
+      - rewrite E5Q. cbn [d5 d_vq]. rewrite <- P3. apply (io_pcks _ _ _ _ _ IO3).
+      - intros rq E. discriminate.
+      - change (dgod d5) with (hm_god c2). unfold hm_god at 1. rewrite flag_2pc. change (hm_2pc c2) with true. cbn iota.
+        unfold names_q, hm_god. rewrite flag_prim. cbn [d5 d_p]. change (hm_prim c2) with (negb (hm_prim c1)).
+        rewrite Pc1, Pm3. apply xorb_nilpotent. }
+    assert (Dd5 : dead H d5) by (intros X; discriminate X).
+    (* window 5: begin_writable *)
+    assert (WF : hm_wfb mF = true) by exact Wc2.
+    assert (EP5 : hm_slot mF (d_p d5) = dP d5).
+    { rewrite E5P. cbn [d5 d_p]. rewrite Pm3. change (hm_slot mF (negb p)) with (hm_slot c1 (negb p)). exact Sc1q. }
+    assert (HQ5 : hm_slot mF (negb (d_p d5)) = dQ d5 /\ true = d_vq d5
+                  \/ hm_slot mF (negb (d_p d5)) = dP d5 /\ true = true /\ hm_2pc mF = true).
+    { left. split; [|reflexivity]. rewrite E5Q. cbn [d5 d_p]. rewrite Pm3, negb_involutive.
+      change (hm_slot mF p) with (hm_slot c1 p). exact Sc1p. }
+    assert (Lf5 : rleaf d5 (hm_2pc mF) (hm_prim mF) = true).
+    { unfold rleaf. change (hm_2pc mF) with true. change (hm_prim mF) with (negb (hm_prim c1)). rewrite Pc1.
+      cbn [d5 d_p]. rewrite Pm3. apply B_2pc. }
+    destruct (sem_pure_keep H expect ps H_tear expect_above d5 D5 mF true IO5 Dd5 eq_refl OK5 WF EP5 HQ5 Lf5)
+      as (FO5 & IO6 & Dd6).
+    exists [mkWrec dA ([] ++ [hdr_write m3]) true; mkWrec d3 ([] ++ [hdr_write c1]) true;
+            mkWrec d4 ([] ++ [hdr_write c2]) true; mkWrec d5 ([] ++ [hdr_write mF]) true].
+    split; [exact EW|]. rewrite ES. cbn [image_after w_ops]. fold D3. fold D4. fold D5. split.
+    - constructor; cbn [w_sum w_ops w_vnew]; [exact IOA | exact FO2 |]. fold D3.
+      constructor; cbn [w_sum w_ops w_vnew]; [exact IO3 | exact FO3 |]. fold D4.
+      constructor; cbn [w_sum w_ops w_vnew]; [exact IO4 | exact FO4 |]. fold D5.
+      constructor; cbn [w_sum w_ops w_vnew]; [exact IO5 | exact FO5 | constructor].
+    - constructor; cbn [p_d]; [exact IO6 | exact Dd6].
+  Qed.
+
+  (* the summary TransactionalMemory::new leaves behind, explicitly *)
+  Definition dA_of (m1 : hdrm) : dsum :=
+    if r0 then mkDsum (enc_hdr m1) (d_len d) p (d_rp d)
+                      (if negb (bytes_eqb (hm_slot m1 (negb p)) (dQ d)) then true else d_vq d) None
+    else d.
+
+  Lemma k_fin_shape m1 :
+    hm_wfb m1 = true ->
+    a_st (rec_finalize d m1 r0) = mkPst (dA_of m1) [] m1 false false
+    /\ a_ws (rec_finalize d m1 r0) = if r0 then [mkWrec d ([] ++ [hdr_write m1]) true] else [].
+  Proof.
+    intros W1. pose proof (hm_wfb_wf _ W1) as Wf1. unfold rec_finalize, dA_of. destruct r0; [|split; reflexivity].
+    assert (Ecur : cur_len (a_st (a_issue (a_start (mkPst d [] m1 false false)) [hdr_write m1])) = d_len d).
+    { unfold a_issue, a_start. cbn [a_st p_d p_win p_mem p_rfs p_open]. apply (cur_len_one_hdr _ _ _ _ _ Wf1). }
+    unfold a_sync, d_same. rewrite Ecur. split; reflexivity.
+  Qed.
+
+  Lemma k_fin_sem m1 :
+    M1 m1 -> rleaf d t0 p0 = true -> rleaf d t0 (hm_prim m1) = true ->
+    forall D, image_ok H expect ps d D -> dead H d ->
+    chain H expect ps D (a_ws (rec_finalize d m1 r0))
+    /\ image_ok H expect ps (dA_of m1) (image_after D (a_ws (rec_finalize d m1 r0)))
+    /\ dead H (dA_of m1).
+  Proof.
+    intros M La Lb D IO Dd.
+    destruct (k_fin m1 M La Lb) as (dA & primA & Ea1 & Wa1 & _).
+    destruct (k_fin_shape m1 (m_wf _ M)) as [ES EW]. rewrite EW in Wa1 |- *. unfold dA_of in *.
+    destruct k_facts as (_ & _ & _ & _ & _ & _ & F7 & _).
+    destruct r0 eqn:Er.
+    - cbn [forallb] in Wa1. rewrite andb_true_r, wrec_okb_mk in Wa1.
+      set (vq1 := if negb (bytes_eqb (hm_slot m1 (negb p)) (dQ d)) then true else d_vq d) in *.
+      assert (HQ : hm_slot m1 (negb p) = dQ d /\ vq1 = d_vq d
+                   \/ hm_slot m1 (negb p) = dP d /\ vq1 = true /\ hm_2pc m1 = true).
+      { unfold vq1. destruct (bytes_eqb (hm_slot m1 (negb p)) (dQ d)) eqn:E.
+        - apply bytes_eqb_eq in E. left. auto.
+        - apply bytes_eqb_neq in E. right. destruct (m_Q _ M) as [[Y _] | (T & _ & Y)]; [contradiction|].
+          rewrite (m_t _ M). auto. }
+      assert (Lf : rleaf d (hm_2pc m1) (hm_prim m1) = true) by (rewrite (m_t _ M); exact Lb).
+      destruct (sem_pure_keep H expect ps H_tear expect_above d D m1 vq1 IO Dd F7 Wa1 (m_wf _ M) (m_P _ M) HQ Lf)
+        as (FO & IO' & Dd').
+      cbn [image_after w_ops]. split; [|split; [exact IO' | exact Dd']].
+      constructor; cbn [w_sum w_ops w_vnew]; [exact IO | exact FO | constructor].
+    - cbn [image_after]. split; [constructor | split; [exact IO | exact Dd]].
+  Qed.
+
+  (* ---- the summaries of a recovery run are truthful: every window start is image_ok, hence a crash during
+     recovery, at any depth, is again an input of crash_window_safe; and the run hands a truthful state to
+     the protocol ---- *)
+  Theorem recovery_sem a :
+    recovery_run d o = Some a ->
+    forall D, image_ok H expect ps d D -> dead H d ->
+    chain H expect ps D (a_ws a) /\ Sem H expect ps (a_st a) (image_after D (a_ws a)).
+  Proof.
+    intros E D IO Dd. unfold recovery_run in E.
+    destruct k_facts as (_ & _ & _ & _ & _ & _ & _ & _ & _ & F10 & F11 & F12).
+    change (hm_rr m0) with r0 in E. change (hm_prim m0) with p0 in E.
+    assert (Eg : negb r0 && negb (stored_len g =? d_len d) = false).
+    { destruct r0; [reflexivity|]. destruct F10 as [_ X]. now rewrite X, N.eqb_refl. }
+    rewrite Eg in E.
+    destruct (select_primary m0' (if Bool.eqb p0 p then true else d_vq d)
+                             (if Bool.eqb (negb p0) p then true else d_vq d)) as [m1|] eqn:Es; [|discriminate].
+    destruct (k_sel m1 Es) as (Sb & K1 & K2 & K3 & K4 & K5 & K6 & K7).
+    assert (M : M1 m1) by (constructor; auto).
+    pose proof (cons_of d) as Cons.
+    assert (Hsame : sameb d = true -> p = p0).
+    { unfold sameb. intros X. apply bytes_eqb_eq in X. apply F11. now symmetry. }
+    assert (Leaves :
+      rleaf d t0 p0 = true /\ rleaf d t0 (hm_prim m1) = true
+      /\ (t0 = true -> hm_prim m1 = p /\ p0 = p)
+      /\ (t0 = false ->
+          rleafb false p0 p (d_vq d) (lqb d) (lpb d) (sameb d) false p = true
+          /\ rleafb false (hm_prim m1) p (d_vq d) (lqb d) (lpb d) (sameb d) false (hm_prim m1) = true
+          /\ rleafb false (hm_prim m1) p (d_vq d) (lqb d) (lpb d) (sameb d) false p = true
+          /\ rleafb false p p (d_vq d) (lqb d) (lpb d) (sameb d) false p = true)).
+    { unfold rleaf. destruct t0 eqn:Et.
+      - specialize (F12 eq_refl). unfold sel_primb in Sb. rewrite <- F12, eqb_reflx in Sb. injection Sb as Sb.
+        rewrite <- Sb, <- F12. split; [apply B_2pc|]. split; [apply B_2pc|].
+        split; [intros _; split; reflexivity | intros X; discriminate X].
+      - destruct (B_1pc p0 p (d_vq d) (lqb d) (lpb d) (sameb d) (hm_prim m1) Cons Hsame Sb) as (B1 & B2 & B3 & B4 & B5 & B6).
+        split; [exact B1|]. split; [exact B2|]. split; [intros X; discriminate X|].
+        intros _. repeat split; assumption. }
+    destruct Leaves as (La & Lb & L2pc & L1pc).
+    destruct (k_fin m1 M La Lb) as (dA & primA & Ea1 & Wa1 & A & EprimA & Ebool).
+    destruct (k_fin_sem m1 M La Lb D IO Dd) as (CH1 & IOA & DdA).
+    destruct (k_fin_shape m1 K1) as [ES1 _].
+    assert (EdA : dA = dA_of m1) by congruence. rewrite <- EdA in IOA, DdA. clear EdA ES1.
+    change (hm_rr m0) with r0 in E.
+    set (a1 := rec_finalize d m1 r0) in *.
+    set (D1 := image_after D (a_ws a1)) in *.
+    rewrite K5 in E.
+    destruct (t0 && ro_quick o) eqn:Equick.
+    - apply andb_true_iff in Equick as [Et _]. destruct (L2pc Et) as [Ep1 Ep0].
+      injection E as <-.
+      assert (A' : AF dA m1 p).
+      { replace p with primA; [exact A|]. rewrite EprimA. destruct r0; [exact Ep1 | exact Ep0]. }
+      destruct (rec_quick_sem a1 dA m1 Ea1 Wa1 A' M Et Ep1 D1 IOA DdA) as (ws & EW & CH & S).
+      rewrite EW, image_after_app. fold D1. split; [apply chain_app; [exact CH1 | exact CH] | exact S].
+    - assert (Lfull : forall m2, (m2 = m1 \/ m2 = swap_prim m1) -> hm_prim m2 = p ->
+                chain H expect ps D (a_ws (rec_full a1 m2 (ro_q o) (d_rp d)))
+                /\ Sem H expect ps (a_st (rec_full a1 m2 (ro_q o) (d_rp d)))
+                                   (image_after D (a_ws (rec_full a1 m2 (ro_q o) (d_rp d))))).
+      { intros m2 Hm2 Ep2.
+        destruct (rec_full_sem a1 dA m1 primA m2 Ea1 Wa1 A M Hm2 Ep2) with (DA := D1) as (ws & EW & CH & S); auto.
+        - unfold rleaf. rewrite (af_t _ _ _ A), (af_prim _ _ _ A), (af_p _ _ _ A).
+          destruct t0 eqn:Et.
+          + destruct (L2pc eq_refl) as [Ep1 Ep0]. replace primA with p; [apply B_2pc|].
+            rewrite EprimA. destruct r0; [symmetry; exact Ep1 | symmetry; exact Ep0].
+          + destruct (Ebool eq_refl) as (V1 & V2 & V3 & V4). destruct (L1pc eq_refl) as (B3 & B4 & B5 & B6).
+            rewrite V1, V2, V3, V4, EprimA. destruct r0; [exact B4|].
+            unfold rleaf in La. rewrite Et in La. exact La.
+        - unfold rleaf. rewrite (af_t _ _ _ A), (af_prim _ _ _ A), (af_p _ _ _ A).
+          destruct t0 eqn:Et; [apply B_2pc|].
+          destruct (Ebool eq_refl) as (V1 & V2 & V3 & V4). destruct (L1pc eq_refl) as (B3 & B4 & B5 & B6).
+          rewrite V1, V2, V3, V4, EprimA. destruct r0; [exact B5 | exact B3].
+        - intros Et. destruct (Ebool Et) as (V1 & V2 & V3 & V4). destruct (L1pc Et) as (B3 & B4 & B5 & B6).
+          rewrite V1, V2, V3, V4. exact B6.
+        - rewrite EW, image_after_app. fold D1. split; [apply chain_app; [exact CH1 | exact CH] | exact S]. }
+      destruct (Bool.eqb (hm_prim m1) p) eqn:Ep1.
+      + apply Bool.eqb_prop in Ep1. injection E as <-. exact (Lfull m1 (or_introl eq_refl) Ep1).
+      + destruct t0 eqn:Et; [discriminate|]. injection E as <-.
+        assert (Ep2 : hm_prim (swap_prim m1) = p).
+        { cbn [swap_prim hm_prim]. rewrite (eqb_false_negb _ _ Ep1). apply negb_involutive. }
+        exact (Lfull (swap_prim m1) (or_intror eq_refl) Ep2).
+  Qed.
 End Rec.
 
 (* what a truthful summary offers by itself *)
@@ -2573,6 +3127,79 @@ Proof.
   - apply negb_true_iff, bytes_eqb_neq in X. contradiction.
   - now apply Bool.eqb_prop in X.
 Qed.
+
+(* ---------- crash safety of recovery runs, and of what follows them ---------- *)
+
+Section RecoverySafe.
+  Variable H : bytes -> bytes.
+  Variable expect : bytes -> list (N * bytes).
+  Variable ps : N.
+  Hypothesis H_tear : forall a b m,
+    cks_ok H a = true -> cks_ok H b = true -> mix2 a b m -> cks_ok H m = true -> m = a \/ m = b.
+  Hypothesis expect_above : forall s e, In e (expect s) -> DB_HEADER_SIZE <= fst e.
+
+  (* what the repair commit owes: its slot has a valid checksum and names the trees of the served commit *)
+  Definition repair_sem (d : dsum) (o : roracle) : Prop :=
+    cks_ok H (ro_q o) = true
+    /\ (forall img, ver expect img (dP d) = true -> ver expect img (ro_q o) = true)
+    /\ (forall e, In e (expect (ro_q o)) -> range_covered (d_rp d) (fst e) (wlen (snd e)) = true).
+
+  Lemma rec_okb_of_image_ok d D o :
+    image_ok H expect ps d D -> rec_side_okb d o = true -> rec_okb d o = true.
+  Proof.
+    intros IO Hs. unfold rec_okb. rewrite Hs, andb_true_r.
+    apply (image_ok_rec_hdr H expect ps d D IO).
+    unfold rec_side_okb in Hs. rewrite !andb_true_iff in Hs. destruct Hs as (_ & X).
+    intros Eq. apply orb_true_iff in X as [X | X].
+    - apply negb_true_iff, bytes_eqb_neq in X. contradiction.
+    - now apply Bool.eqb_prop in X.
+  Qed.
+
+  Theorem recovery_chain d D o a :
+    image_ok H expect ps d D -> dead H d -> rec_side_okb d o = true -> repair_sem d o ->
+    recovery_run d o = Some a ->
+    chain H expect ps D (a_ws a) /\ Sem H expect ps (a_st a) (image_after D (a_ws a)).
+  Proof.
+    intros IO Dd Hs (Q1 & Q2 & Q3) E.
+    exact (recovery_sem d o (rec_okb_of_image_ok d D o IO Hs) H expect ps H_tear expect_above Q1 Q2 Q3 a E D IO Dd).
+  Qed.
+
+  (* a crash at any instant of a recovery run: recovery of the crash image serves the commit the interrupted
+     recovery was serving, or the repair commit it was writing (the same trees) *)
+  Theorem recovery_crash_safe d D o a :
+    image_ok H expect ps d D -> dead H d -> rec_side_okb d o = true -> repair_sem d o ->
+    recovery_run d o = Some a ->
+    forall pre w post k img,
+      a_ws a = pre ++ w :: post ->
+      CrashOf (image_after D pre) (firstn k (w_ops w)) img ->
+      crash_outcome H expect ps (w_sum w) (map abs (w_ops w)) img.
+  Proof.
+    intros IO Dd Hs Hr E.
+    destruct (recovery_chain d D o a IO Dd Hs Hr E) as [CH _].
+    destruct (recovery_ok d o (rec_okb_of_image_ok d D o IO Hs) a E) as (W & _ & _).
+    exact (crash_trace_safe H expect ps H_tear expect_above D _ CH W).
+  Qed.
+
+  (* recovery followed by any history of protocol steps *)
+  Theorem recovery_then_protocol_crash_safe d D o a ss :
+    image_ok H expect ps d D -> dead H d -> rec_side_okb d o = true -> repair_sem d o ->
+    recovery_run d o = Some a ->
+    steps_okb (a_st a) ss = true -> steps_sem H expect (a_st a) (image_after D (a_ws a)) ss ->
+    forall pre w post k img,
+      a_ws a ++ all_windows (run_steps (a_st a) ss) = pre ++ w :: post ->
+      CrashOf (image_after D pre) (firstn k (w_ops w)) img ->
+      crash_outcome H expect ps (w_sum w) (map abs (w_ops w)) img.
+  Proof.
+    intros IO Dd Hs Hr E Hok Hsem.
+    destruct (recovery_chain d D o a IO Dd Hs Hr E) as [CH S].
+    destruct (recovery_ok d o (rec_okb_of_image_ok d D o IO Hs) a E) as (W & J & _).
+    pose proof (protocol_chain H expect ps H_tear expect_above (a_st a) ss _ J S Hok Hsem) as CH2.
+    destruct (steps_ok (a_st a) ss J Hok) as [W2 _].
+    apply (crash_trace_safe H expect ps H_tear expect_above D (a_ws a ++ all_windows (run_steps (a_st a) ss))).
+    - apply chain_app; assumption.
+    - rewrite forallb_app, W, W2. reflexivity.
+  Qed.
+End RecoverySafe.
 
 (* ---------- boolean forms for Props/C01.v ---------- *)
 
